@@ -27,6 +27,9 @@ BUILT = {
     "C04": ("exhaustive enumeration of file-class sequences (length 0..3/4, both argument modes) + Hypothesis-sampled longer ones, against a model of verdict lines and exit status; forked CLI validated against the real CLI",
             "Every sequence over {clean, notice-only, erroneous, fatal} up to the bound is run through the CLI as explicit paths and as a directory; verdict lines and exit status must match the model computed from independent in-process runs.",
             "Class representatives are generated per run (one per class); the forked-CLI adapter is cross-checked against real processes on every run.", "§4.4"),
+    "C05": ("exhaustive small-alphabet enumeration + Hypothesis lexeme soups and long runs for the tokenizer; prefix / <=2-lexeme-edit damage of generated programs for the pipeline; step-budget monitor for termination; atheris/libFuzzer campaigns in the thorough tier",
+            "Totality oracle: the tokenizer must return on every string; the pipeline must end in a verdict or exactly the controlled fatal error, within a step budget that grows quadratically with the input (measured head-room recorded); the CLI must never print a traceback. Failures are bucketed by (exception, innermost function, outermost rule).",
+            "Non-termination is decided by a step count over the five primitives every loop of the tool goes through, not by the wall clock; damage limited to prefixes and <= 2 lexeme edits.", "§4.5"),
     "C06": ("history-based testing: generated sequences of files through one shared registry in a child forked from a pristine process, each step compared with the file alone in a fresh fork; sampled permutations of the rules directory listing in spawned interpreters",
             "Invariant over the history: the result of every step equals the file's result alone. Histories mix clean, violating, fatal (garbage, #if), lexical, recursion-sensitive and comment-laden files of both types, with debug and -R options; reversed orders; listing permutations on a generated corpus.",
             "Sampled histories (<= 6 steps) and permutations; forked children isolate leaked state from the harness.", "§4.6"),
